@@ -54,15 +54,15 @@ Definition lines_of (fw : fworld) (p : product) : list lineinfo :=
 (* the database view of the resolver: one stack, the declared (name, version) pairs of the world for
    the one flavor, the chain entries of fw_tags *)
 Definition decl_of (cfg : Setup.config) (p : product) : str * str * str :=
-  (p_name p, p_version p, c_flavor cfg).
+  (p_name p, p_version p, flavor_of cfg (p_name p) (p_version p)).
 Definition chain_of (cfg : Setup.config) (x : str * str * str) : str * str * str * str :=
-  match x with (n, t, v) => (n, c_flavor cfg, t, v) end.
+  match x with (n, t, v) => (n, flavor_of cfg n v, t, v) end.
 Definition db_of (cfg : Setup.config) (fw : fworld) : dbv :=
   [mkStack (c_root cfg) (map (decl_of cfg) (fw_products fw)) (map (chain_of cfg) (fw_tags fw))].
 
 (* the Product object of a declared product *)
 Definition found_of (cfg : Setup.config) (p : product) : found :=
-  mkFound (c_root cfg) (p_name p) (p_version p) (c_flavor cfg).
+  mkFound (c_root cfg) (p_name p) (p_version p) (flavor_of cfg (p_name p) (p_version p)).
 
 Definition already := amap (found * option reason).
 
